@@ -1,0 +1,81 @@
+//go:build verif
+
+package memfs
+
+// Machine-checked contracts for /verif (gowp). Comment-only file: it adds no code.
+
+// --- C03: the child view confines every path it hands to the parent filespace ---
+//@ func NewFilespaceWrapper [C03 C01]
+//@   ensures err == nil ==> typeis(wrapFS, "*FilespaceWrapper")
+//@   ensures err == nil ==> NoDotDot(as(wrapFS, "*FilespaceWrapper").basePath) && hassuffix(as(wrapFS, "*FilespaceWrapper").basePath, "/")
+//@   ensures err == nil ==> as(wrapFS, "*FilespaceWrapper").fs == fs
+//@   ensures err != nil ==> wrapFS == nil
+
+//@ func (*FilespaceWrapper).Copy [C03 C01]
+//@   requires w.fs != nil
+//@   at_call Filespace.*,NewFilespaceWrapper requires Confined(w.basePath, $arg)
+
+//@ func (*FilespaceWrapper).CopyDirectory [C03 C01]
+//@   requires w.fs != nil
+//@   at_call Filespace.*,NewFilespaceWrapper requires Confined(w.basePath, $arg)
+
+//@ func (*FilespaceWrapper).CopyFile [C03 C01]
+//@   requires w.fs != nil
+//@   at_call Filespace.*,NewFilespaceWrapper requires Confined(w.basePath, $arg)
+
+//@ func (*FilespaceWrapper).ReadDir [C03 C01]
+//@   requires w.fs != nil
+//@   at_call Filespace.*,NewFilespaceWrapper requires Confined(w.basePath, $arg)
+
+//@ func (*FilespaceWrapper).IsExist [C03 C01]
+//@   requires w.fs != nil
+//@   at_call Filespace.*,NewFilespaceWrapper requires Confined(w.basePath, $arg)
+
+//@ func (*FilespaceWrapper).IsFile [C03 C01]
+//@   requires w.fs != nil
+//@   at_call Filespace.*,NewFilespaceWrapper requires Confined(w.basePath, $arg)
+
+//@ func (*FilespaceWrapper).IsDir [C03 C01]
+//@   requires w.fs != nil
+//@   at_call Filespace.*,NewFilespaceWrapper requires Confined(w.basePath, $arg)
+
+//@ func (*FilespaceWrapper).MkdirAll [C03 C01]
+//@   requires w.fs != nil
+//@   at_call Filespace.*,NewFilespaceWrapper requires Confined(w.basePath, $arg)
+
+//@ func (*FilespaceWrapper).ReadFile [C03 C01]
+//@   requires w.fs != nil
+//@   at_call Filespace.*,NewFilespaceWrapper requires Confined(w.basePath, $arg)
+
+//@ func (*FilespaceWrapper).WriteFile [C03 C01]
+//@   requires w.fs != nil
+//@   at_call Filespace.*,NewFilespaceWrapper requires Confined(w.basePath, $arg)
+
+//@ func (*FilespaceWrapper).Filespace [C03 C01]
+//@   requires w.fs != nil
+//@   at_call Filespace.*,NewFilespaceWrapper requires Confined(w.basePath, $arg)
+
+//@ func (*FilespaceWrapper).Reader [C03 C01]
+//@   requires w.fs != nil
+//@   at_call Filespace.*,NewFilespaceWrapper requires Confined(w.basePath, $arg)
+
+//@ func (*FilespaceWrapper).Writer [C03 C01]
+//@   requires w.fs != nil
+//@   at_call Filespace.*,NewFilespaceWrapper requires Confined(w.basePath, $arg)
+
+//@ func (*FilespaceWrapper).Remove [C03 C01]
+//@   requires w.fs != nil
+//@   at_call Filespace.*,NewFilespaceWrapper requires Confined(w.basePath, $arg)
+
+//@ func (*FilespaceWrapper).RemoveAll [C03 C01]
+//@   requires w.fs != nil
+//@   at_call Filespace.*,NewFilespaceWrapper requires Confined(w.basePath, $arg)
+
+//@ func (*FilespaceWrapper).Lstat [C03 C01]
+//@   requires w.fs != nil
+//@   at_call Filespace.*,NewFilespaceWrapper requires Confined(w.basePath, $arg)
+
+
+//@ type FilespaceWrapper
+//@   field basePath immutable
+//@   field fs immutable
